@@ -367,6 +367,149 @@ def write_ctx_replay(schedule):
     return path
 
 
+MUTATORS = {"clear", "update", "append", "pop", "add", "setdefault", "extend", "insert", "remove", "discard", "popitem", "sort", "reverse"}
+
+
+def scan_unsynchronised_mutables(root="/repo/einx/_src"):
+    """From the AST of every module: objects that outlive a call and are MUTATED inside a function outside any
+    `with <lock>` block - module-level dict/list/set objects, mutable default arguments, and `global` rebinding.
+    (The registry object and threading.local instances are handled by their own models.)"""
+    found = []
+    for d, _, files in os.walk(root):
+        for fn in sorted(files):
+            if not fn.endswith(".py"):
+                continue
+            p = os.path.join(d, fn)
+            try:
+                tree = ast.parse(open(p).read())
+            except SyntaxError:
+                continue
+            objs = {}
+            for node in tree.body:
+                if isinstance(node, ast.Assign) and len(node.targets) == 1 and isinstance(node.targets[0], ast.Name):
+                    v = node.value
+                    if isinstance(v, (ast.Dict, ast.List, ast.Set)) or (isinstance(v, ast.Call) and ast.unparse(v.func) in ("dict", "list", "set", "defaultdict", "collections.defaultdict", "OrderedDict", "collections.OrderedDict")):
+                        objs[node.targets[0].id] = "module-level " + type(v).__name__
+            for f in ast.walk(tree):
+                if not isinstance(f, (ast.FunctionDef, ast.AsyncFunctionDef)):
+                    continue
+                local = dict(objs)
+                args = f.args
+                pos = args.posonlyargs + args.args
+                for a, dflt in list(zip(pos[len(pos) - len(args.defaults) :], args.defaults)) + [(a, dv) for a, dv in zip(args.kwonlyargs, args.kw_defaults) if dv is not None]:
+                    if isinstance(dflt, (ast.Dict, ast.List, ast.Set)):
+                        local[a.arg] = "mutable default argument"
+                aliases = {}
+                locked = set()
+                for w in ast.walk(f):
+                    if isinstance(w, ast.With) and any("lock" in ast.unparse(i.context_expr).lower() for i in w.items):
+                        locked |= {id(x) for x in ast.walk(w)}
+                    if isinstance(w, ast.Assign) and len(w.targets) == 1 and isinstance(w.targets[0], ast.Name) and isinstance(w.value, ast.Name) and w.value.id in local:
+                        aliases[w.targets[0].id] = w.value.id
+                for n in ast.walk(f):
+                    name = None
+                    if isinstance(n, ast.Call) and isinstance(n.func, ast.Attribute) and n.func.attr in MUTATORS and isinstance(n.func.value, ast.Name):
+                        name = n.func.value.id
+                    elif isinstance(n, ast.Subscript) and isinstance(n.ctx, (ast.Store, ast.Del)) and isinstance(n.value, ast.Name):
+                        name = n.value.id
+                    elif isinstance(n, ast.AugAssign) and isinstance(n.target, ast.Name):
+                        name = n.target.id
+                    elif isinstance(n, ast.Global):
+                        for g in n.names:
+                            writes = [w for w in ast.walk(f) if isinstance(w, (ast.Assign, ast.AugAssign)) and any(isinstance(t, ast.Name) and t.id == g for t in (w.targets if isinstance(w, ast.Assign) else [w.target]))]
+                            if any(id(w) not in locked for w in writes):
+                                found.append({"file": os.path.relpath(p, "/repo"), "function": f.name, "object": g, "kind": "global rebinding", "line": n.lineno})
+                        continue
+                    name = aliases.get(name, name)
+                    if name in local and id(n) not in locked:
+                        if not any(x["file"] == os.path.relpath(p, "/repo") and x["function"] == f.name and x["object"] == name for x in found):
+                            found.append({"file": os.path.relpath(p, "/repo"), "function": f.name, "object": name, "kind": local[name], "line": n.lineno})
+    return found
+
+
+TABLE_REPLAY = r'''#!/venv/bin/python
+"""Replay (C10): thread A is paused inside {function}() ({file}) right after it touched the shared object
+`{obj}`; thread B then runs a whole first-time einx call; A resumes. Every pair of calls of a small pool is tried
+in a fresh interpreter; outcomes are compared with numpy (= what every serial order gives)."""
+import json, subprocess, sys
+FILE, FUNC, LINE = {file!r}, {function!r}, {line}
+CHILD = r"""
+import json, sys, threading
+sys.path.insert(0, "/repo")
+import numpy as np
+import einx
+FILE, FUNC, LINE, I, J = sys.argv[1], sys.argv[2], int(sys.argv[3]), int(sys.argv[4]), int(sys.argv[5])
+X, Y, Z = np.arange(6.0).reshape(2, 3) + 1, np.arange(12.0).reshape(3, 4) - 3, np.arange(6.0).reshape(3, 2) * 2 - 1
+POOL = [
+    (lambda: einx.dot("a b, b c -> a c", X, Y), X @ Y),
+    (lambda: einx.dot("c b, b a -> c a", X, Y), X @ Y),
+    (lambda: einx.dot("b a, b c -> a c", Z, Y), Z.T @ Y),
+    (lambda: einx.dot("a b, b -> a", X, Y[:, 0], backend="numpy.einsum"), X @ Y[:, 0]),
+    (lambda: einx.sum("b [a] -> b", X), X.sum(1)),
+    (lambda: einx.add("b a, a -> a b", X, X[0]), (X + X[0]).T),
+    (lambda: einx.id("b a -> a b", X), X.T),
+    (lambda: einx.multiply("c a, a b -> b c a", X, Y, backend="numpy.einsum"), np.einsum("ca,ab->bca", X, Y)),
+]
+a_in, b_done = threading.Event(), threading.Event()
+def tracer(frame, event, arg):
+    if event == "call":
+        co = frame.f_code
+        if co.co_name == FUNC and co.co_filename.endswith(FILE):
+            return local
+        return tracer
+    return None
+def local(frame, event, arg):
+    if event == "line" and frame.f_lineno > LINE and not a_in.is_set():
+        a_in.set(); b_done.wait(20)
+    return local
+out = {{}}
+def run_a():
+    sys.settrace(tracer)
+    try: out["A"] = np.asarray(POOL[I][0]()).tolist()
+    except Exception as e: out["A"] = "raised " + type(e).__name__
+    finally: sys.settrace(None); a_in.set()
+def run_b():
+    a_in.wait(20)
+    try: out["B"] = np.asarray(POOL[J][0]()).tolist()
+    except Exception as e: out["B"] = "raised " + type(e).__name__
+    finally: b_done.set()
+ta, tb = threading.Thread(target=run_a), threading.Thread(target=run_b)
+ta.start(); tb.start(); ta.join(60); tb.join(60)
+again = {{}}
+for k, idx in (("A", I), ("B", J)):
+    try: again[k] = np.asarray(POOL[idx][0]()).tolist()
+    except Exception as e: again[k] = "raised " + type(e).__name__
+exp = {{"A": POOL[I][1].tolist(), "B": POOL[J][1].tolist()}}
+print("RESULT " + json.dumps({{"ok": out == exp and again == exp, "out": out, "again": again, "expected": exp}}))
+"""
+bad = []
+n = 8
+for i in range(n):
+    for j in range(n):
+        if i == j: continue
+        p = subprocess.run(["/venv/bin/python", "-c", CHILD, FILE, FUNC, str(LINE), str(i), str(j)], capture_output=True, text=True, timeout=180)
+        line = [l for l in p.stdout.splitlines() if l.startswith("RESULT ")]
+        if not line:
+            print("pair", i, j, "child failed:", p.stderr[-300:]); continue
+        r = json.loads(line[0][7:])
+        if not r["ok"]:
+            bad.append((i, j, r))
+            if len(bad) <= 3:
+                print("pair (A=call %d paused in %s, B=call %d):" % (i, FUNC, j)); print("  during :", r["out"]); print("  repeat :", r["again"]); print("  serial :", r["expected"])
+if bad:
+    print("REPRODUCED: %d of %d call pairs give outcomes that no serial order gives" % (len(bad), n * (n - 1))); sys.exit(1)
+print("NOT-REPRODUCED"); sys.exit(0)
+'''
+
+
+def write_table_replay(cand):
+    os.makedirs(os.path.join(runner.REPLAY_DIR, PROP), exist_ok=True)
+    path = os.path.join(runner.REPLAY_DIR, PROP, f"shared_{os.path.basename(cand['file'])[:-3]}_{cand['function']}_{cand['object']}.py")
+    with open(path, "w") as f:
+        f.write(TABLE_REPLAY.format(file=cand["file"], function=cand["function"], obj=cand["object"], line=cand["line"]))
+    return path
+
+
 def work(item):
     programs, skeleton, timeout_ms = item
     init = ((), frozenset({0, 1}))
@@ -458,6 +601,23 @@ def main():
     tw3, _, _ = bmc.context_stack_check(False, 30000)
     if tw3 != "sat":
         rep.harness_error(f"vacuity twin (context stack modelled as shared) came back {tw3!r}, expected sat")
+    # objects that outlive a call and are mutated inside a function without a lock: same two-call model (write own
+    # entries / read them back), replayed through the public API with thread A paused right after its first write
+    unsync = scan_unsynchronised_mutables()
+    unsync_results = []
+    for cand in unsync:
+        v, schedule, stats = bmc.context_stack_check(False, timeout_ms)
+        solver_s += stats["solver_s"]
+        entry = dict(cand, verdict=v, schedule=schedule)
+        if v == "sat":
+            path = write_table_replay(cand)
+            ok, out = replay.run_script(path, timeout=1500)
+            entry["replayed"] = ok
+            if ok:
+                rep.violation({"kind": "unsynchronised-shared-object", "file": cand["file"], "function": cand["function"], "object": cand["object"]}, path, f"{cand['kind']} `{cand['object']}` is mutated in {cand['function']}() ({cand['file']}:{cand['line']}) without a lock; model schedule {schedule}\n{out[-900:]}")
+            else:
+                rep.inconclusive.append({"why": "shared object mutated without a lock, but no pair of pool calls shows a non-serial outcome", "object": cand})
+        unsync_results.append(entry)
     shared = scan_shared_state()
     known_inventory = {"registry", "_thread_local", "_dependon"}
     uncovered = [s for s in shared if s["name"] not in known_inventory and s["kind"] not in ("threading.local", "threading.Lock", "threading.RLock")]
@@ -475,6 +635,7 @@ def main():
         "skeleton_from_ast": {m: {k: v for k, v in skeleton[m].items()} for m in skeleton},
         "model_validation": {"real_vs_model_evaluations": n_val, "disagreements": len(problems)},
         "vacuity_twins": {"serial_only": tw, "no_locks": tw2, "context_stack_shared": tw3},
+        "objects_mutated_in_functions_without_lock": unsync_results,
         "tracing_context_stacks": {"from_ast": ctx, "observed_on_real_module": ctx_dyn, "model_checked": ctx_results},
         "module_level_mutable_objects": shared,
         "uncovered_shared_state": uncovered,
